@@ -382,6 +382,8 @@ pub trait Spec: Sized + 'static {
     fn check<'a>(item: RI<'a, Self>, v: &Self::V, cx: &mut Cx) -> Result<(), String>;
     /// Push `v` through one of the forms the region accepts.
     fn push_via<K: Sink<Self::R>>(k: &mut K, v: &Self::V, f: &mut Forms) -> K::Out;
+    /// Push a read item (of any region of this type, or borrowed from an owned value).
+    fn push_read<'a, K: Sink<Self::R>>(k: &mut K, item: RI<'a, Self>) -> K::Out;
     /// Push a batch through `Extend`/`FromIterator` in one homogeneous form.
     fn push_all_via<K: BatchSink<Self::R>>(k: &mut K, vs: &[Self::V], f: &mut Forms);
     /// `ReserveItems` through one of the offered forms; false when the region has none.
